@@ -10,11 +10,12 @@ def op(name, o=0, p=0, t=0):
     return {"op": name, "o": o, "p": p, "t": t}
 
 
-def new_prog(rec=(), cap=(), ncv=0, bar=(), actors=(), hosts=0, perm=(), nmq=0, timed=True):
+def new_prog(rec=(), cap=(), ncv=0, bar=(), actors=(), hosts=0, perm=(), nmq=0, timed=True, spawn=None):
     """perm[b] = permanent receiver (actor number, 0 = none) of mailbox b+1; timed = exact durations (one host per actor,
     dedicated FATPIPE link, 1 byte = 1 tick, 1 exec unit = 1 tick)."""
     return {"rec": list(rec), "cap": list(cap), "ncv": ncv, "bar": list(bar), "hosts": hosts or max(1, len(actors)),
-            "perm": list(perm), "nmq": nmq, "timed": bool(timed), "actors": [list(a) for a in actors]}
+            "perm": list(perm), "nmq": nmq, "timed": bool(timed), "actors": [list(a) for a in actors],
+            "spawn": [bool(x) for x in spawn] if spawn is not None else [False] * len(actors)}
 
 
 TIMED_CFG = ["--cfg=network/model:CM02", "--cfg=network/crosstraffic:0"]
@@ -30,7 +31,7 @@ def prog_to_txt(p, tick_exp=10):
     out += ["@mq"] * p.get("nmq", 0)
     out += ["@timed %d" % (1 if p.get("timed", True) else 0)]
     for i, a in enumerate(p["actors"]):
-        out.append("@actor %d 0" % (i % max(1, p.get("hosts", 1))))
+        out.append("@actor %d %d" % (i % max(1, p.get("hosts", 1)), 1 if p.get("spawn", [False] * 99)[i] else 0))
         for o in a:
             out.append("%s %d %d %d" % (o["op"], o["o"], o["p"], o["t"]))
     out.append("@end")
@@ -44,7 +45,7 @@ def prog_brief(p):
             s += "/m%d" % o["p"]
         if o["op"] == "trylock" and o["p"]:
             s += "?"
-        if o["op"] in ("acqt", "cvwaitfor", "sleep", "put", "puta", "putd", "exec", "execa", "waitfor"):
+        if o["op"] in ("acqt", "cvwaitfor", "sleep", "put", "puta", "putd", "exec", "execa", "waitfor", "join", "killtime"):
             s += "@%d" % o["t"]
         return s
     return {"rec": p["rec"], "cap": p["cap"], "ncv": p["ncv"], "bar": p["bar"], "perm": p.get("perm", []),
@@ -195,6 +196,16 @@ def run_kdrv(ctx, idx, prog, cfg=(), timeout=20, env=None, wrapper=()):
                     recs.append(json.loads(line))
                 except ValueError:
                     recs.append({"e": "garbled", "raw": line[:200]})
+    # actors are identified by their program index: rewrite the pids of the kernel-side lines (hook H1) and drop "born"
+    pidmap = {r["pid"]: r["a"] for r in recs if r.get("e") == "born"}
+    out_recs = []
+    for r in recs:
+        if r.get("e") == "born":
+            continue
+        if r.get("e") in ("handle", "answer"):
+            r = dict(r, a=pidmap.get(r["a"], -r["a"]))
+        out_recs.append(r)
+    recs = out_recs
     if not any(r.get("e") == "end" for r in recs):
         recs.append({"e": "end", "how": "hang" if rc == 124 else "crash", "rc": rc})
     return recs
@@ -257,7 +268,7 @@ def streams(recs, nactors):
     """Projection of a trace on its streams (maestro lines; per-actor lines), for SgKernelTraceEq."""
     m, a = [], [[] for _ in range(nactors)]
     for r in recs:
-        if r.get("e") in ("issue", "ret", "killed") and 1 <= r.get("a", 0) <= nactors:
+        if r.get("e") in ("issue", "ret", "killed", "onexit") and 1 <= r.get("a", 0) <= nactors:
             a[r["a"] - 1].append(r)
         else:
             m.append(r)
@@ -459,3 +470,61 @@ def gen_timed_prog(rng, max_actors=4, max_ops=6):
                     ops.append(op("wait", nh))
         actors.append(ops)
     return new_prog(cap=cap, actors=actors, perm=[0] * nb, timed=True)
+
+
+def gen_life_prog(rng, max_actors=5, max_ops=6):
+    """Actor lifecycle: create, on_exit callbacks, join with/without timeout, kill, kill_all, daemons, kill times, mixed with
+    sleeps, executions and semaphore waits (no mutex / barrier: their queues keep killed actors, out of C11's scope)."""
+    na = rng.randint(2, max_actors)
+    spawn = [False] * na
+    parent = {}
+    for c in range(1, na):
+        if rng.random() < 0.35:
+            spawn[c] = True
+            parent[c] = rng.randrange(0, c)
+    ns = rng.randint(0, 1)
+    actors = []
+    for a in range(na):
+        ops = []
+        if rng.random() < 0.2 and a > 0:
+            ops.append(op("daemon"))
+        kids = [c for c in parent if parent[c] == a]
+        n = rng.randint(1, max_ops)
+        nid = 0
+        for _ in range(n):
+            k = rng.choice(["sleep", "sleep", "exec", "onexit", "onexit", "join", "joint", "kill", "killtime", "acq", "rel", "killall"])
+            if kids and rng.random() < 0.5:
+                c = kids.pop(0)
+                ops.append(op("create", c + 1))
+                if rng.random() < 0.5:
+                    ops.append(op("join", c + 1, 0, rng.choice([-1, -1, 1, 2, 4])))
+                continue
+            if k == "sleep":
+                ops.append(op("sleep", 0, 0, rng.randint(1, 5)))
+            elif k == "exec":
+                ops.append(op("exec", 0, 0, rng.randint(1, 3)))
+            elif k == "onexit":
+                nid += 1
+                ops.append(op("onexit", 10 * (a + 1) + nid))
+            elif k in ("join", "joint"):
+                cand = [x for x in range(na) if x != a and not spawn[x]]
+                if cand:
+                    ops.append(op("join", rng.choice(cand) + 1, 0, -1 if k == "join" else rng.randint(0, 4)))
+            elif k == "kill":
+                cand = [x for x in range(na) if x != a]
+                ops.append(op("kill", rng.choice(cand) + 1))
+            elif k == "killtime":
+                if not any(o["op"] == "killtime" for o in ops):   # re-arming a kill time is left unspecified
+                    ops.append(op("killtime", 0, 0, rng.randint(1, 8)))
+            elif k == "acq" and ns:
+                ops.append(op("acq" if rng.random() < 0.5 else "acqt", 1, 0, rng.randint(1, 4)))
+            elif k == "rel" and ns:
+                ops.append(op("rel", 1))
+            elif k == "killall" and rng.random() < 0.15:
+                ops.append(op("killall"))
+        for c in kids:
+            ops.append(op("create", c + 1))
+        if ops and ops[0]["op"] == "daemon":
+            ops.append(op("sleep", 0, 0, 60))
+        actors.append(ops)
+    return new_prog(cap=[rng.choice([0, 1])] * ns, actors=actors, spawn=spawn, timed=True)
